@@ -1,3 +1,4 @@
+import SdbModel.Generated.TableParams
 import SdbModel.Lemmas.ChangesRun
 
 /-!
@@ -343,5 +344,10 @@ example : ∃ g, ([1], g) ∈ (tbl r8.db.root ((r8.db.iters[0]?).getD default).t
 
 example : ((r8.db.iters[0]?).getD default).table = 0 ∧ ((r8.db.iters[0]?).getD default).deleteRevision = 1 := by
   decide +kernel
+
+/-- the structural facts about write_txn.go, graveyard.go, iterator.go and deletetracker.go that
+    `Model.Table` builds in — when a deletion is retained, the collector's low watermark and what it collects — hold of the source as it is today (regenerated by
+    `tools/extract` on every run) -/
+theorem C08_source_facts : Gen.tableFacts = Tbl.expectedFacts := by decide
 
 end Sdb
